@@ -44,6 +44,10 @@ ASSUMPTIONS = [
     "eigen-solver and Cholesky rounding (is_psd, sqrtm_psd, eigh) cannot be exhibited by the exact model",
 ]
 
+def _g(fn):
+    return du.guarded(fn)
+
+
 F_D9 = "stabilizer_to_density:nonzero-signs"
 F_NEARPURE = "fidelity:near-pure-shortcut"
 
@@ -61,6 +65,7 @@ def subsets(n):
             yield list(c)
 
 
+@_g
 def check_ptrace(res, drv, rho_x, keep, dims, tag):
     f = dmf()
     rho = rho_x.to_complex()
@@ -126,6 +131,7 @@ def uhl_tol(a, b):
     return 1e-9 if min(du.min_eig(a), du.min_eig(b)) > 1e-3 else 1e-6
 
 
+@_g
 def check_pair(res, drv, ax, bx, tag, exact_f=None, exact_t=None):
     """fidelity + trace distance of one pair: correspondence with the model's branch/value and the direct oracle"""
     f = dmf()
@@ -194,6 +200,7 @@ def check_pair(res, drv, ax, bx, tag, exact_f=None, exact_t=None):
     return v, t
 
 
+@_g
 def check_self(res, ax, tag):
     """F(rho, rho) = 1, T(rho, rho) = 0"""
     f = dmf()
@@ -210,6 +217,7 @@ def check_self(res, ax, tag):
         res.violation("trace_distance:equal-states-not-0", "trace distance of a state with itself is not 0", input=dict(tag=tag, a=ax.args("a")), value=t)
 
 
+@_g
 def check_triangle(res, xs, tag):
     f = dmf()
     a, b, c = (x.to_complex() for x in xs)
@@ -263,20 +271,53 @@ def commuting_pair(rng, drv, n):
 
 
 # Infidelity across representations ------------------------------------------------------------------------------------
-def check_infidelity(res, drv, rng, n, signs):
+def all_stabilizer_states(n):
+    """one tableau for each of the 6 (n=1) / 60 (n=2) stabilizer states: breadth-first over H, P on every qubit and CNOT in both
+    directions from |0..0>, states identified by their density matrix (own converter, signs honoured)"""
+    from graphiq.backends.stabilizer.clifford_tableau import CliffordTableau
+    from graphiq.backends.stabilizer.functions import transformation as tr
+
+    start = CliffordTableau(n)
+    seen = {np.round(du.stab_density(start), 6).tobytes(): start}
+    frontier = [start]
+    while frontier:
+        nxt = []
+        for t in frontier:
+            cands = []
+            for q in range(n):
+                cands.append(tr.hadamard_gate(copy.deepcopy(t), q))
+                cands.append(tr.phase_gate(copy.deepcopy(t), q))
+            for a in range(n):
+                for b in range(n):
+                    if a != b:
+                        cands.append(tr.cnot_gate(copy.deepcopy(t), a, b))
+            for c in cands:
+                k = np.round(du.stab_density(c), 6).tobytes()
+                if k not in seen:
+                    seen[k] = c
+                    nxt.append(c)
+        frontier = nxt
+    return list(seen.values())
+
+
+@_g
+def check_infidelity(res, drv, rng, n, signs, pair=None):
     import random as _r
     from graphiq.metrics import Infidelity, TraceDistance
     from graphiq.state import QuantumState
 
-    ta = tu.random_tableau(_r.Random(rng.getrandbits(30)), n, signs=signs)
-    tb = tu.random_tableau(_r.Random(rng.getrandbits(30)), n, signs=signs) if rng.random() < 0.7 else copy.deepcopy(ta)
-    if rng.random() < 0.3:
-        # a state at overlap 1/2^k: apply a few gates to a copy
-        from graphiq.backends.stabilizer.functions import transformation as tr
+    if pair is not None:
+        ta, tb = copy.deepcopy(pair[0]), copy.deepcopy(pair[1])
+    else:
+        ta = tu.random_tableau(_r.Random(rng.getrandbits(30)), n, signs=signs)
+        tb = tu.random_tableau(_r.Random(rng.getrandbits(30)), n, signs=signs) if rng.random() < 0.7 else copy.deepcopy(ta)
+        if rng.random() < 0.3:
+            # a state at overlap 1/2^k: apply a few gates to a copy
+            from graphiq.backends.stabilizer.functions import transformation as tr
 
-        tb = copy.deepcopy(ta)
-        for _ in range(rng.randint(1, 2)):
-            tb = rng.choice([tr.hadamard_gate, tr.phase_gate, tr.x_gate, tr.z_gate])(tb, rng.randrange(n))
+            tb = copy.deepcopy(ta)
+            for _ in range(rng.randint(1, 2)):
+                tb = rng.choice([tr.hadamard_gate, tr.phase_gate, tr.x_gate, tr.z_gate])(tb, rng.randrange(n))
     ra, rb = du.stab_density(ta), du.stab_density(tb)
     truth = 1 - float(np.trace(ra @ rb).real)
     has_sign_b = bool(np.any(np.asarray(tb.phase)[n:]))
@@ -335,6 +376,7 @@ def check_infidelity(res, drv, rng, n, signs):
         res.violation("TraceDistance:raises", "TraceDistance.evaluate raised on a stabilizer state", input=inp, error=repr(e)[:200])
 
 
+@_g
 def near_pure_probe(res):
     """a visibly mixed state (purity 1 - 4e-6) must not take the pure-state shortcut (it did while is_pure used np.allclose's default
     relative tolerance 1e-5; repaired)"""
@@ -446,6 +488,21 @@ def run(ctx):
     n_inf = 60 if ctx.quick else 600
     for k in range(n_inf):
         check_infidelity(res, drv, rng, rng.randint(1, 3 if ctx.quick else 4), signs=(k % 2 == 0))
+    # exhaustive: every ordered pair of one-qubit stabilizer states (6 x 6) on every run; every ordered pair of the 60 two-qubit
+    # stabilizer states in the thorough tier (a seeded sample of 200 pairs in the quick tier)
+    s1 = all_stabilizer_states(1)
+    for a in s1:
+        for b in s1:
+            check_infidelity(res, drv, rng, 1, True, pair=(a, b))
+    s2 = all_stabilizer_states(2)
+    res.extra["stabilizer_states_enumerated"] = {"n=1": len(s1), "n=2": len(s2)}
+    pairs2 = [(a, b) for a in s2 for b in s2]
+    if ctx.quick:
+        pairs2 = rng.sample(pairs2, 200)
+    for a, b in pairs2:
+        check_infidelity(res, drv, rng, 2, True, pair=(a, b))
+    res.notes.append(f"Infidelity across representations: all {len(s1) ** 2} ordered pairs of 1-qubit stabilizer states; "
+                     f"{len(pairs2)} of the {len(s2) ** 2} ordered pairs of 2-qubit stabilizer states")
     drv.close()
     res.extra["driver_lines"] = drv.n_lines
     res.extra["oracle_only"] = "non-commuting mixed pairs (tag mixed-mixed-noncommuting): direct oracle only, no exact model value"
